@@ -87,6 +87,20 @@ def _mkmod(tag, ptype):
 OA = _mkmod("a", "int")
 OB = _mkmod("b", "Decimal")
 ''', ["OA", "OB", "List[OB]"], ("OA", "OB")),
+    "local_discriminated": ('''
+from mashumaro.types import Discriminator
+def _ld():
+    @dataclass
+    class LB(DataClassDictMixin):
+        pass
+    @dataclass
+    class LV(LB):
+        kind: str = "v"
+        a: int = 0
+    return LB, LV
+LB, LV = _ld()
+LDisc = Annotated[LB, Discriminator(field="kind", include_subtypes=True)]
+''', ["LDisc", "List[LDisc]"], None),
     "str_subclass": ('''
 class MyStr(str):
     pass
@@ -157,6 +171,10 @@ def awkward_task(payload):
 
 
 SAMPLES = {
+    "local_discriminated": {
+        "LDisc": ("{'kind': 'v', 'a': 2}", "type(v) is LV and v.a == 2"),
+        "List[LDisc]": ("[{'kind': 'v', 'a': 2}]", "type(v[0]) is LV"),
+    },
     "local_value_factories": {
         "DefaultDict[str, LocV]": ("{'k': {'z': 1}}", "type(v['k']) is LocV and type(v['missing']) is LocV"),
         "collections.defaultdict[str, List[LocV]]": ("{'k': [{'z': 1}]}", "type(v['k'][0]) is LocV"),
